@@ -149,7 +149,7 @@ JudgeDeriveSeq(e) ==
       js == [k \in 1..n |-> JudgeDerive([i |-> e.i, op |-> "hdk.derive", in |-> e.in.steps[k], out |-> o.ok.steps[k]])]
   IN  [cls |-> "accept",
        devs |-> CrashDevs(o) \cup
-         (IF ~shaped THEN {D({"C03"}, "history_not_answered", "")}
+         (IF ~shaped THEN (IF IsErr(o) \/ IsOk(o) THEN {D({"C03"}, "history_not_answered", "")} ELSE {})
           ELSE UNION {{D(d.props, "step_" \o ToString(k) \o "_of_history_" \o d.reason, d.detail) : d \in js[k].devs} : k \in 1..n})]
 
 \* key.new : in = [secret]   out.ok = [secret, pub, addr, addr_display, debug]
@@ -183,7 +183,8 @@ JudgeKeySignBulk(e) ==
       bad == IF shaped THEN {c \in 1..nch : Hx(o.ok.chunks[c]) # BulkSignHash(d, sd, e.in.from + (c - 1) * e.in.chunk, len(c))} ELSE {}
   IN  [cls |-> "accept",
        devs |-> CrashDevs(o) \cup
-         (IF ~shaped THEN {D({"C05"}, "bulk_signing_failed", "")}
+         \* (a timeout / abort of the sweep is a C17 matter, reported by CrashDevs; it says nothing about the signatures)
+         (IF ~shaped THEN (IF IsErr(o) \/ IsOk(o) THEN {D({"C05"}, "bulk_signing_failed", "")} ELSE {})
           ELSE IF bad # {} THEN
             LET c == CHOOSE x \in bad : \A y \in bad : x <= y
             IN  {D({"C05"}, "bulk_signatures_differ_from_rfc6979",
@@ -525,7 +526,8 @@ JudgeMnSweep(e) ==
   LET o == e.out IN
   [cls |-> "accept",
    devs |-> CrashDevs(o) \cup
-     (IF ~IsOk(o) THEN {D({"C01"}, "sweep_failed", "")}
+     \* (a sweep that timed out or died is a C17 matter, reported by CrashDevs)
+     (IF ~IsOk(o) THEN (IF IsErr(o) THEN {D({"C01"}, "sweep_failed", "")} ELSE {})
       ELSE (IF o.ok.tried # e.in.count THEN {D({"C01"}, "sweep_incomplete", "")} ELSE {})
            \cup {D({"C01"}, "accepted_unknown_word", o.ok.accepted[k]) :
                    k \in {q \in 1..Len(o.ok.accepted) : ParsePhrase(StrToCps(SweepPhrase(o.ok.accepted[q], e.in.pos))).c = "reject"}})]
